@@ -157,7 +157,7 @@ void Exec::op_copy(Client &c) {
 	mpq_QSprob q = mpq_QScopy_prob(src->p, nm.c_str());
 	after_lib_call("copy");
 	if (!q) { violate("C16", "copy-failed:" + src->life, "QScopy_prob returned NULL"); return; }
-	auto o = std::make_shared<Obj>(); o->p = q; o->m = src->m; o->uid = next_uid++; o->family = src->family; o->has_sos = src->has_sos;
+	auto o = std::make_shared<Obj>(); o->p = q; o->m = src->m; o->uid = next_uid++; o->family = src->family; o->has_sos = src->has_sos; o->repairable_names = src->repairable_names;
 	o->life = "loaded"; o->limits_default = src->limits_default; o->iparam = src->iparam;
 	Client &dst = clients[(int)op->i("to", op->client)];
 	dst.objs.push_back(o);
